@@ -24,7 +24,7 @@ def tla_set(xs):
 ACCESS_FINISH = ["genuine", "wrongkey", "stale", "reordered", "replayed", "unknown", "self", "reflect", "crossname", "badseal", "short", "badtlv"]
 ACCESS_OPS = ["GetAcc", "GetChar", "PutVal", "PutSub", "Resource", "AddPair", "RemPair"]
 ACCESS_NOISE = ["psstart", "pswrong", "pszero"]
-ACCESS_GUARDS = ["key_looked_up_per_finish", "session_installed_only_without_error", "signature_checked", "authenticate_checks_verified",
+ACCESS_GUARDS = ["rejected_start_keeps_waiting", "key_looked_up_per_finish", "session_installed_only_without_error", "signature_checked", "authenticate_checks_verified",
                  "authenticate_returns_after_refusal", "pairings_behind_auth", "resource_behind_auth"]
 ACCESS_RULES = {"VerifiedRule": "C03", "ErrorRule": "C03", "PlainStaysPlain": "C03",
                 "GateRule": "C01", "RefusalChangesNothing": "C01", "OnlyVerifiedGetEvents": "C01", "NoCarryOver": "C01"}
@@ -167,11 +167,11 @@ def access_family(run, replay=None):
 # PairSetup family: C02
 # =====================================================================================================
 
-PS_ALL = dict(AVals=["good", "zero", "N", "missing", "replay"], Proofs=["right", "wrong", "missing", "nilkey"], Seals=["this", "other", "zero", "random", "nilkey"],
+PS_ALL = dict(AVals=["good", "zero", "N", "missing", "replay", "replay_same"], Proofs=["right", "wrong", "missing", "nilkey"], Seals=["this", "other", "zero", "random", "nilkey", "recorded"],
               Bodies=["genuine", "badsig", "mismatch", "badtlv", "smallorder"], Shapes=["ok", "tagflip", "ctflip", "short", "empty"])
 PS_CORE = dict(AVals=["good", "zero", "replay"], Proofs=["right", "wrong"], Seals=["this", "zero", "other"],
                Bodies=["genuine", "badsig"], Shapes=["ok", "tagflip", "short"])
-PS_GUARDS = ["wrong_proof_resets", "bad_A_stops_exchange", "verify_bad_A_resets", "step_checked_before_kex", "signature_checked", "aead_checked"]
+PS_GUARDS = ["session_fresh_after_reset", "wrong_proof_resets", "bad_A_stops_exchange", "verify_bad_A_resets", "step_checked_before_kex", "signature_checked", "aead_checked"]
 
 
 def ps_cfg(conn, ident, sl, weak=(), tail='', consts=''):
@@ -486,8 +486,14 @@ def notify_gen(run):
     depth = 14 if thorough else 10
     sim = run.generate('NotifyGen', cfgtext=nt_cfg(["c1", "c2", "c3"], ["x", "y", "z"], consts='SimLen = %d' % depth, tail=t + 'INVARIANT EmitSim'),
                        simulate='num=%d' % (20000 if thorough else 400), heap='2g', timeout=1200, depth=depth + 1)
-    groups = [('edge', edge), ('word', words)] + [('attack:' + g, [a]) for g, a in attacks] + [('sim', sim)]
-    return groups, dict(edge_words=len(edge), edge_words_enumerated=nedge, words_enumerated=nall, words_replayed=len(words), word_len=n,
+    # two controllers writing the same new value at the same time, many rounds (RemoteWriteRace of Notify.tla)
+    rounds = 600 if thorough else 150
+    race = [dict(a='Connect', c=c, ch='none', v=0) for c in ('c1', 'c2', 'c3')] + [dict(a='Sub', c=c, ch='x', v=0) for c in ('c1', 'c2', 'c3')]
+    race += [dict(a='RemoteRace', c='c1', d='c2', ch='x', v=(i + 1) % 2) for i in range(rounds)]
+    race2 = [dict(a='Connect', c=c, ch='none', v=0) for c in ('c1', 'c2', 'c3')] + [dict(a='Sub', c='c3', ch='y', v=0), dict(a='Sub', c='c2', ch='y', v=0)]
+    race2 += [dict(a='RemoteRace', c='c1', d='c2', ch='y', v=(i + 1) % 2) for i in range(rounds // 3)]
+    groups = [('edge', edge), ('word', words)] + [('attack:' + g, [a]) for g, a in attacks] + [('sim', sim), ('race', [race, race2])]
+    return groups, dict(racing_write_rounds=rounds + rounds // 3, edge_words=len(edge), edge_words_enumerated=nedge, words_enumerated=nall, words_replayed=len(words), word_len=n,
                         attack_words=len(attacks), sim_words=len(sim), sim_depth=depth)
 
 
@@ -969,7 +975,7 @@ def charcell_gen(run):
     uniq = lambda ws: [json.loads(x) for x in sorted(set(json.dumps([{k: v for k, v in s.items() if k != 'exp'} for s in w]) for w in ws))]
     one, two, three = uniq(one), uniq(two), uniq(three)
     attacks = []
-    for g in (["string_formats_converted"], ["string_formats_converted", "compare_is_total"], ["write_needs_pw"], ["store_needs_pr"]):
+    for g in (["string_formats_converted"], ["string_formats_converted", "compare_is_total"], ["write_needs_pw"], ["store_needs_pr"], ["value_limited_when_range_changes"]):
         a = run.generate('CharacteristicGen', cfgtext=CH_CONSTS + '  Weak = %s\n' % tla_set(g) + t + 'INVARIANT NoAttack\nVIEW AttackView\nCHECK_DEADLOCK FALSE\n', expect_violation=True)
         if not a:
             raise ToolTrouble('no attack word for guards %s' % g)
